@@ -129,8 +129,8 @@ impl Check for C03 {
         (
             pair,
             (any::<bool>(), 0u8..3, any::<bool>(), any::<bool>(), any::<bool>()),
-            g::raw_interp(4, 0, 2, 5),
-            g::raw_interp(4, 0, 2, 2),
+            g::raw_interp(5, 0, 2, 5),
+            g::raw_interp(5, 0, 2, 2),
             0u8..7,
         )
             .prop_map(|((left, right), (sequential, direction, mu, simplify, eq_break), raw, extra, bs)| Case {
